@@ -1,4 +1,4 @@
-import JSL.Props.C15
+import JSL.Inv.ObsIndex
 import JSL.Inv.ObsSpace
 
 /-!
